@@ -516,3 +516,60 @@ def gen_crossdb(seed, tier, types=None):
                             cases.append(xdb_case("c06x_%s_%s_%s_v%s_%d_%s_%d" % (ta, tv, way[0], vttl, cand, oname, i), ta, tv, way,
                                                   vttl, i % 2, cand, off, r.choice([0, 1, 500, 999])))
     return cases
+
+
+# ---------------------------------------------------------------- numeric boundaries of every time argument
+M63 = 2 ** 63 - 1
+REL_VALUES = ([0, 1, 2, 999, 1000, 1001, 1500, 1999, 2000, 2001, -1, -1000, 2 ** 31 - 1, 2 ** 31, 2 ** 31 + 1, 2 ** 32 - 1, 2 ** 32,
+               2 ** 32 + 1, 2 ** 53 - 1, 2 ** 53, 2 ** 53 + 1, 9223372036, 9223372037, 9223372036000 - 1, 9223372036000,
+               9223372036000 + 1, 9223372036854, 9223372036855, 9223372036854775 - 1, 9223372036854775, 9223372036854775 + 1,
+               9223372036854776, 10000000000000, 9007199254740992, 4611686018427387904, M63 - 1, M63, M63 + 1, -M63, -M63 - 1, -M63 - 2]
+              + [Tok("@X-1"), Tok("@X+0"), Tok("@X+1"), Tok("@X+2")])
+ABS_VALUES = [Tok("@T-1000"), Tok("@T-1"), Tok("@T+0"), Tok("@T+1"), Tok("@T+2"), Tok("@T+1000"), 0, 1, -1, 2 ** 31, 2 ** 32, 2 ** 53,
+              9223372036854775, M63 - 1, M63, M63 + 1, -M63 - 1]
+
+
+def _val(v):
+    return v if isinstance(v, Tok) else str(v).encode()
+
+
+def gen_boundary(seed, tier):
+    """every command/option that takes a time x the numeric boundary values; then TTL, GET/EXISTS,
+    a clock advance across the small deadlines (1.001 s, 2.002 s), dumps."""
+    r = random.Random(seed * 40503 + 9)
+    forms = []
+    for v in REL_VALUES:
+        forms.append(("set_ex", None, [[b"set", K, b"v", b"EX", _val(v)]]))
+        forms.append(("set_px", None, [[b"set", K, b"v", b"PX", _val(v)]]))
+        forms.append(("set_px_get", None, [[b"set", K, b"w", b"px", _val(v), b"GET"]]))
+        forms.append(("setex", None, [[b"setex", K, _val(v), b"v"]]))
+        forms.append(("psetex", None, [[b"psetex", K, _val(v), b"v"]]))
+        forms.append(("getex_px", None, [[b"getex", K, b"PX", _val(v)]]))
+        for opt in (None, b"NX", b"XX", b"GT", b"LT"):
+            for pre in (None, 100):
+                forms.append(("expire_%s_pre%s" % ((opt or b"none").decode().lower(), pre), pre,
+                              [[b"expire", K, _val(v)] + ([opt] if opt else [])]))
+        forms.append(("pexpire", None, [[b"pexpire", K, _val(v)]]))
+    for v in ABS_VALUES:
+        forms.append(("set_exat", None, [[b"set", K, b"v", b"EXAT", _val(v)]]))
+        forms.append(("set_pxat", None, [[b"set", K, b"v", b"PXAT", _val(v)]]))
+        forms.append(("expireat", None, [[b"expireat", K, _val(v)]]))
+    cases = []
+    for i, (name, pre, cmds) in enumerate(forms):
+        c = TCase("c06b_%s_%d" % (name, i))
+        c.align(r.choice([0, 1, 500, 999]))
+        c.cmd([b"set", K, b"old"])
+        if pre is not None:
+            c.cmd([b"expire", K, str(pre).encode()])
+        for cmd in cmds:
+            c.cmd(cmd)
+        c.cmd([b"ttl", K])
+        c.cmd([b"get", K])
+        c.cmd([b"exists", K])
+        c.dump()
+        for wait in (1001, 1001):
+            c.cmd([b"ttl", K], sleep_ms=wait)
+            c.cmd([b"get", K])
+            c.dump()
+        cases.append(c)
+    return cases
